@@ -199,3 +199,112 @@ def run_guarddep(facts, rep, files):
                        sample={"function": p, "cast_line": c.get("l"), "guard_line": g.get("l"),
                                "cast_inputs": sorted(dx), "guard_inputs": sorted(dg)})
     return n
+
+
+def run_carry(facts, rep, fn_filter):
+    """R-CARRY [N]: iterations of a per-element loop must be independent.  A buffer declared OUTSIDE a `for` loop and
+    written INSIDE it carries state from one iteration to the next; reading it (or handing it to a callee as `&mut`)
+    in an iteration before it has been fully re-initialised in that same iteration (`x = ..`, `.fill(..)`,
+    `set_zero_uint(x)`) makes element i's result depend on element i-1 — for the encoders, the residues of one
+    coefficient then depend on the previous coefficient's magnitude."""
+    from flow import Flow
+    rep.rule("R-CARRY", "in the per-coefficient loops of the encoders, a buffer declared outside the loop and written "
+             "inside it is fully re-initialised in each iteration before it is read or handed on")
+    REINIT = {"fill", "clear", "set_zero_uint", "set_zero"}
+    n = 0
+    for p in sorted(facts.hir):
+        if not fn_filter(p):
+            continue
+        body = facts.hir[p]
+        loops = [x for x in walk(body) if x.get("k") == "For"]
+        if not loops:
+            continue
+        rep.fn(p)
+        li = 0
+        for L in loops:
+            inner_lets = {y["lid"] for x in walk(L["body"]) if x.get("k") == "Let" for y in walk(x["pat"]) if y.get("k") == "PBind"}
+            inner_lets |= {y["lid"] for y in walk(L["pat"]) if y.get("k") == "PBind"}
+            # buffers written in the loop but declared outside it
+            written = {}
+            for x in walk(L["body"]):
+                k = x.get("k")
+                if k in ("Assign", "AssignOp") and x["lhs"].get("k") == "Index":
+                    rl = root_local(x["lhs"])
+                    if rl and rl[0] not in inner_lets:
+                        written[rl[0]] = rl[1]
+                if k in ("Call", "MCall"):
+                    args = ([x["recv"]] if k == "MCall" else []) + x.get("args", [])
+                    for a in args:
+                        if (facts.ty_adj(a).startswith("&mut ") or facts.ty(a).startswith("&mut ")) and \
+                                ("Vec<" in facts.ty_adj(a) or "[" in facts.ty_adj(a)):
+                            rl = root_local(a)
+                            if rl and rl[0] not in inner_lets:
+                                written[rl[0]] = rl[1]
+            # only buffers that are also READ as a whole somewhere in the loop matter (pure output buffers are fine)
+            if not written:
+                continue
+            findings = []
+
+            def transfer(nd, st, written=written, findings=findings):
+                k = nd.get("k")
+                if k == "Assign":
+                    lo = local_of(nd["lhs"])
+                    if lo and lo[0] in st and strip(nd["lhs"]).get("k") == "Path":
+                        return st - frozenset([lo[0]])
+                    return st
+                if k in ("Call", "MCall"):
+                    f = callee(nd)
+                    name = f["name"] if f else nd.get("name", "")
+                    args = ([nd["recv"]] if k == "MCall" else []) + nd.get("args", [])
+                    if name in REINIT and args:
+                        rl = root_local(args[0])
+                        if rl and rl[0] in st and strip(args[0]).get("k") in ("Path", "MCall"):
+                            # whole-buffer re-initialisation (x.fill(..), x.as_mut_slice().fill(..), set_zero_uint(&mut x))
+                            a0 = strip(args[0])
+                            whole = a0.get("k") == "Path" or (a0.get("k") == "MCall" and a0.get("name") in
+                                                              ("as_mut_slice", "as_mut", "iter_mut"))
+                            if whole:
+                                return st - frozenset([rl[0]])
+                    for a in args:
+                        rl = root_local(a)
+                        if rl and rl[0] in st:
+                            sa = strip(a)
+                            # element read x[i] of a dirty buffer, or the whole buffer handed on
+                            findings.append((rl[1], nd))
+                    return st
+                if k == "Index":
+                    return st
+                return st
+
+            def visit(nd, st, findings=findings):
+                # reads through indexing in plain expressions: x[i] on the right-hand side
+                if nd.get("k") == "Index":
+                    rl = root_local(nd)
+                    if rl and rl[0] in st:
+                        findings.append((rl[1], nd))
+
+            # assignment targets are not reads: pre-compute ids of lhs Index nodes
+            lhs_ids = {id(x["lhs"]) for x in walk(L["body"]) if x.get("k") in ("Assign",) and x["lhs"].get("k") == "Index"}
+
+            def visit2(nd, st):
+                if id(nd) in lhs_ids:
+                    return
+                visit(nd, st)
+
+            fl = Flow(facts, lambda a, b: a | b, transfer, closure_mode="maybe")
+            fl.visit_hook = visit2
+            fl.ev(L["body"], frozenset(written))
+            n += 1
+            key = "%s/for#%d" % (p, li)
+            li += 1
+            if findings:
+                nm, node = findings[0]
+                rep.violation("R-CARRY", key + "/" + nm,
+                              "buffer `%s` is declared outside this per-element loop, written inside it, and read (line %s) "
+                              "in an iteration before being fully re-initialised in that iteration: element i is computed "
+                              "from leftovers of element i-1" % (nm, node.get("l")), facts.loc(p, node))
+            else:
+                rep.ok("R-CARRY", key, "outer buffers written in the loop {%s} are write-only or re-initialised per iteration"
+                       % ", ".join(sorted(written.values())), facts.loc(p, L),
+                       sample={"function": p, "line": L.get("l"), "buffers": sorted(written.values())})
+    return n
